@@ -85,9 +85,10 @@ int ideal_flush(substdio *s) { if (s == &ssout) repflushed = replen; return 0; }
  *        "Delivered-To:", any letter case)             - each of these must be counted;
  *   hi = header lines that begin with the letters "received" / "delivered"
  *        (any case)                                     - nothing else may be counted.
- * Lines are the transmitted lines; a dot-stuffed line starts with '.', and a conforming
- * sender stuffs only lines that start with '.', so it is never a Received/Delivered-To
- * field. */
+ * Lines are the STORED lines: one leading dot of a transmitted line is removed before the
+ * comparison (C07: "100 or more Received/Delivered-To fields" speaks of the message that
+ * is queued; the original code compared the raw line, repaired by the "fix: qmail-smtpd:
+ * count Received/Delivered-To fields on the decoded header line" commit). */
 static int ci_prefix(unsigned int at, unsigned int end, const char *lower, unsigned int n)
 {
   unsigned int k;
@@ -110,9 +111,10 @@ static void ref_hops(unsigned int end, int *lo, int *hi)
   for (i = 0; i < N; ++i) {
     if (i + 1 >= end) break;
     if (in[i] == '\r' && in[i + 1] == '\n') {          /* line in[start..i) */
+      unsigned int ls = (in[start] == '.') ? start + 1 : start;   /* stored line starts after a stuffed dot */
       if (i == start) return;                          /* empty line: end of header */
-      if (ci_prefix(start, i, "received:", 9) || ci_prefix(start, i, "delivered-to:", 13)) ++*lo;
-      if (ci_prefix(start, i, "received", 8) || ci_prefix(start, i, "delivered", 9)) ++*hi;
+      if (ci_prefix(ls, i, "received:", 9) || ci_prefix(ls, i, "delivered-to:", 13)) ++*lo;
+      if (ci_prefix(ls, i, "received", 8) || ci_prefix(ls, i, "delivered", 9)) ++*hi;
       start = i + 2;
     }
   }
